@@ -588,6 +588,7 @@ type Contract struct {
 	Fresh     []string
 	Covers    []*Clause
 	GhostSets []*GhostSet
+	Opaque    map[string]bool
 }
 
 // GhostSet: `ghost-set g[idx] = val when cond` (ghost code run at every return of the function)
@@ -658,7 +659,7 @@ func parseTags(s string) (props []string, label string, rest string) {
 }
 
 var clauseKW = map[string]bool{"requires": true, "ensures": true, "assigns": true, "pure": true, "trusted": true, "loop": true,
-	"at-call": true, "func": true, "spec": true, "ghost": true, "lemma": true, "axiom": true, "iterated": true, "signal": true, "fresh": true, "cover": true, "nobody": true, "ghost-set": true, "moninv": true}
+	"at-call": true, "func": true, "spec": true, "ghost": true, "lemma": true, "axiom": true, "iterated": true, "signal": true, "fresh": true, "cover": true, "nobody": true, "ghost-set": true, "moninv": true, "opaque": true}
 
 // LoadContractFile parses one contract file. pkgPath qualifies short function keys ("" for spec files,
 // whose keys are already fully qualified).
@@ -925,6 +926,13 @@ func (cs *ContractSet) LoadContractText(text, path, pkgPath string, external boo
 				}
 				gs.Val = ve
 				cur.GhostSets = append(cur.GhostSets, gs)
+			case "opaque":
+				if cur.Opaque == nil {
+					cur.Opaque = map[string]bool{}
+				}
+				for _, a := range strings.Split(rest, ",") {
+					cur.Opaque[strings.TrimSpace(a)] = true
+				}
 			case "fresh":
 				for _, a := range strings.Split(rest, ",") {
 					cur.Fresh = append(cur.Fresh, strings.TrimSpace(a))
